@@ -54,6 +54,7 @@ func tokBytes(t uint64) message.Token {
 }
 
 type world struct {
+	conMID map[uint64]int32 // token -> message ID of a confirmable registration request that was not acknowledged yet
 	mu      sync.Mutex
 	events  []string
 	udp     *udpclient.Conn
@@ -110,6 +111,21 @@ func (w *world) inject(tok uint64, code codes.Code, seq string, tag string) {
 		w.mid++
 		m.SetMessageID(w.mid)
 		m.SetType(message.NonConfirmable)
+		// the answer to a confirmable registration request that is still unacknowledged is piggybacked on its ACK
+		for _, d := range w.us.TakeSent() {
+			q := pool.NewMessage(context.Background())
+			if _, err := q.UnmarshalWithDecoder(udpcoder.DefaultCoder, d.Data); err == nil && q.Type() == message.Confirmable && q.Code() == codes.GET {
+				if w.conMID == nil {
+					w.conMID = map[uint64]int32{}
+				}
+				w.conMID[binary.BigEndian.Uint64(append(make([]byte, 8-len(q.Token())), q.Token()...))] = q.MessageID()
+			}
+		}
+		if id, ok := w.conMID[tok]; ok {
+			delete(w.conMID, tok)
+			m.SetType(message.Acknowledgement)
+			m.SetMessageID(id)
+		}
 		b, err := m.MarshalWithEncoder(udpcoder.DefaultCoder)
 		if err != nil {
 			panic(err)
@@ -138,6 +154,7 @@ func runCase(t *testing.T, transport string, ops [][]string) []string {
 			w.udp, w.us = mem.NewUDPConn(mem.UDPOpts{Mutate: func(cfg *udpclient.Config) {
 				cfg.LimitClientParallelRequests = 8
 				cfg.LimitClientEndpointParallelRequests = 8
+				cfg.TransmissionNStart = 64 // confirmable registrations must not queue behind one another (NSTART is C06's subject)
 				cfg.Handler = func(_ *responsewriter.ResponseWriter[*udpclient.Conn], m *pool.Message) { deflt(m.Token(), m) }
 			}})
 			w.cc = w.udp
@@ -178,6 +195,11 @@ func runCase(t *testing.T, transport string, ops [][]string) []string {
 					_ = req.SetPath("/obs")
 					req.SetObserve(0)
 					req.SetType(message.NonConfirmable)
+					if len(f) == 3 && f[2] == "con" {
+						// confirmable registration: on datagram transports the write waits for the ACK (or a response), so a
+						// `regabort` before anything arrives leaves NewObservation through its write-error exit
+						req.SetType(message.Confirmable)
+					}
 					go func() {
 						o, err := w.cc.DoObserve(req, func(m *pool.Message) {
 							w.log(fmt.Sprintf("cb %d %d %s %d %s", id, binary.BigEndian.Uint64(append(make([]byte, 8-len(m.Token())), m.Token()...)),
@@ -290,7 +312,7 @@ func TestC08(t *testing.T) {
 		case len(f) == 1 && f[0] == "end":
 			flush(w)
 			fmt.Fprintln(w, "end")
-		case transport != "" && (f[0] == "reg" && len(f) == 2 || f[0] == "arrive" && len(f) == 6 || (f[0] == "regabort" || f[0] == "cancel") && len(f) == 3):
+		case transport != "" && (f[0] == "reg" && (len(f) == 2 || len(f) == 3) || f[0] == "arrive" && len(f) == 6 || (f[0] == "regabort" || f[0] == "cancel") && len(f) == 3):
 			ops = append(ops, f)
 		default:
 			flush(w)
